@@ -105,8 +105,20 @@ NumericPool == UNION {{Whole(k, x) : x \in {y \in WholeNums : InKind(k, y)}} : k
 
 -----------------------------------------------------------------------------
 (* D. everything else.  Texts, blob contents and attribute names are sequences of small   *)
-(* numbers (TLC cannot order strings); the check maps code c to the ASCII character       *)
-(* chr(96 + c) for texts ("a" = 1) and to the byte c - 1 for blobs.                       *)
+(* numbers (TLC cannot order strings).  For texts and names a number is a CHARACTER of    *)
+(* the alphabet below; the numbers are in the order of the characters' code points, which *)
+(* is the order of their UTF-8 encodings, which is what str::cmp (Text::cmp) compares -   *)
+(* so lexicographic comparison of the code sequences IS the order of the texts as the     *)
+(* code defines it (the check verifies the table: code points and UTF-8 bytes ascending). *)
+(* For blobs a number c is the byte c - 1.                                                *)
+cNUL == 1      \* U+0000            1 byte
+cA == 2        \* U+0041 "A"        1 byte
+ca == 3        \* U+0061 "a"        1 byte
+cb == 4        \* U+0062 "b"        1 byte
+ce == 5        \* U+00E9            2 bytes
+cW == 6        \* U+FF5E            3 bytes; one UTF-16 unit 0xFF5E, ABOVE the surrogates of U+10000
+cS == 7        \* U+10000           4 bytes; UTF-16 0xD800 0xDC00: a UTF-16 order would put it BELOW U+FF5E
+Rep(c, n) == [i \in 1..n |-> c]
 
 Extant == [k |-> "extant"]
 Bool(b) == [k |-> "bool", b |-> b]
@@ -117,36 +129,48 @@ Attr(name, v) == [name |-> name, value |-> v]
 VItem(v) == [slot |-> FALSE, key |-> Extant, value |-> v]
 Slot(key, v) == [slot |-> TRUE, key |-> key, value |-> v]
 
-Texts == {Text(<<>>), Text(<<1>>), Text(<<1, 1>>), Text(<<1, 2>>), Text(<<2>>)}
-Blobs == {Data(<<>>), Data(<<1>>), Data(<<1, 1>>), Data(<<2>>), Data(<<256>>)}
-
+\* texts: empty, one character, trailing / leading / interior NUL, prefixes of one another, case pair, characters of 1..4
+\* bytes, and the boundary of the small (inline) representation of Text (SMALL_SIZE = 24 BYTES): 23 / 24 / 25 bytes with
+\* equal prefixes, reached with one-byte and with two-byte characters
+TextSeqs == {<<>>, <<cNUL>>, <<cNUL, cNUL>>, <<ca>>, <<ca, cNUL>>, <<cNUL, ca>>, <<ca, cNUL, cb>>, <<ca, ca>>, <<ca, cb>>, <<cb>>, <<cA>>,
+             <<ce>>, <<cW>>, <<cS>>,
+             Rep(ca, 23), Rep(ca, 24), Rep(ca, 25), Rep(ca, 23) \o <<cNUL>>, Rep(ca, 24) \o <<cNUL>>, Rep(ca, 23) \o <<cb>>,
+             Rep(ca, 22) \o <<ce>>, Rep(ca, 23) \o <<ce>>}
 One32 == Whole("i32", N(0, 2))
+Texts == {Text(s) : s \in TextSeqs}
+\* every text in every position a Text occurs in: attribute name, slot key, record item (and the bare value above)
+TextPositions == {Rec(<<Attr(s, Extant)>>, <<>>) : s \in TextSeqs} \cup {Rec(<<>>, <<Slot(Text(s), One32)>>) : s \in TextSeqs}
+                 \cup {Rec(<<>>, <<VItem(Text(s))>>) : s \in TextSeqs}
+\* blobs: empty, prefixes of one another, differing in the last byte, extreme bytes, the bytes of the texts "a", "a\0", U+00E9
+Blobs == {Data(<<>>), Data(<<1>>), Data(<<1, 1>>), Data(<<2>>), Data(<<256>>), Data(<<98>>), Data(<<98, 1>>), Data(<<98, 98>>),
+          Data(<<98, 99>>), Data(<<196, 170>>)}
+
 \* the alternatives for one leaf: the same number in another kind, as a float, its neighbour,
 \* a text, nothing
 LeafAlts == {One32, Whole("i64", N(0, 2)), Whole("biguint", N(0, 2)), Float("fin", N(0, 2)),
-             Whole("i32", N(0, 4)), Text(<<1>>), Extant}
+             Whole("i32", N(0, 4)), Text(<<ca>>), Extant}
 
 \* template  @a(L1) { L2: L3, L4 }  (depth 0)  and  @a(L1) { L2: L3, { L4 } }  (depth 1); RecDepth = 2: both
 Template(l1, l2, l3, l4, d) ==
-    Rec(<<Attr(<<1>>, l1)>>, <<Slot(l2, l3), IF d = 0 THEN VItem(l4) ELSE VItem(Rec(<<>>, <<VItem(l4)>>))>>)
+    Rec(<<Attr(<<ca>>, l1)>>, <<Slot(l2, l3), IF d = 0 THEN VItem(l4) ELSE VItem(Rec(<<>>, <<VItem(l4)>>))>>)
 Depths == IF RecDepth = 2 THEN {0, 1} ELSE {RecDepth}
 OneLeafVariants == UNION {
     {Template(l, One32, One32, One32, d) : l \in LeafAlts} \cup {Template(One32, l, One32, One32, d) : l \in LeafAlts} \cup
     {Template(One32, One32, l, One32, d) : l \in LeafAlts} \cup {Template(One32, One32, One32, l, d) : l \in LeafAlts} : d \in Depths}
 \* structural neighbours: empty, attribute only, other name, item vs slot, prefix, extension
 Shapes == {Rec(<<>>, <<>>),
-           Rec(<<Attr(<<1>>, Extant)>>, <<>>),
-           Rec(<<Attr(<<2>>, Extant)>>, <<>>),
-           Rec(<<Attr(<<1>>, Extant), Attr(<<1>>, Extant)>>, <<>>),
+           Rec(<<Attr(<<ca>>, Extant)>>, <<>>),
+           Rec(<<Attr(<<cb>>, Extant)>>, <<>>),
+           Rec(<<Attr(<<ca>>, Extant), Attr(<<ca>>, Extant)>>, <<>>),
            Rec(<<>>, <<VItem(One32)>>),
            Rec(<<>>, <<VItem(Extant)>>),
            Rec(<<>>, <<Slot(One32, One32)>>),
            Rec(<<>>, <<VItem(One32), VItem(One32)>>),
            Rec(<<>>, <<VItem(Rec(<<>>, <<>>))>>),
-           Rec(<<Attr(<<1>>, One32)>>, <<Slot(One32, One32)>>),
-           Rec(<<Attr(<<1>>, Rec(<<>>, <<VItem(One32)>>))>>, <<>>)}
+           Rec(<<Attr(<<ca>>, One32)>>, <<Slot(One32, One32)>>),
+           Rec(<<Attr(<<ca>>, Rec(<<>>, <<VItem(One32)>>))>>, <<>>)}
 
-OtherPool == {Extant, Bool(FALSE), Bool(TRUE)} \cup Texts \cup Blobs \cup OneLeafVariants \cup Shapes
+OtherPool == {Extant, Bool(FALSE), Bool(TRUE)} \cup Texts \cup TextPositions \cup Blobs \cup OneLeafVariants \cup Shapes
 
 Pool == NumericPool \cup OtherPool
 
